@@ -630,6 +630,18 @@ fn run_decode<T: Encode>(
                 Err(m) => Outcome::Accepted(Some(FullInfo { reenc: Err(format!("encoder panicked: {m}")), enc_len: None, eq: None })),
                 Ok((Err(e), l)) => Outcome::Accepted(Some(FullInfo { reenc: Err(format!("encoder failed: {e}")), enc_len: l, eq: None })),
                 Ok((Ok(b), l)) => {
+                    // `encode` appends: into a buffer that already holds other data (21 bytes, so the offset is no
+                    // multiple of a word, a block or a seed) it must leave that data alone and add the same bytes
+                    let mut buf = vec![0xEEu8; 21];
+                    match catch(|| v.encode(&mut buf)) {
+                        Ok(Ok(())) if buf.len() == 21 + b.len() && buf[..21].iter().all(|x| *x == 0xEE) && buf[21..] == b[..] => {}
+                        Ok(Ok(())) => {
+                            let what = if !buf[..buf.len().min(21)].iter().all(|x| *x == 0xEE) || buf.len() < 21 { "overwrites the bytes already in the buffer" } else { "appends bytes different from get_encoded()" };
+                            return Outcome::Accepted(Some(FullInfo { reenc: Err(format!("encode() into a buffer that already holds 21 bytes {what}")), enc_len: l, eq: None }));
+                        }
+                        Ok(Err(e)) => return Outcome::Accepted(Some(FullInfo { reenc: Err(format!("encode() into a non-empty buffer failed: {e}")), enc_len: l, eq: None })),
+                        Err(m) => return Outcome::Accepted(Some(FullInfo { reenc: Err(format!("encode() into a non-empty buffer panicked: {m}")), enc_len: l, eq: None })),
+                    }
                     let eqr = eq.map(|eqf| match catch(|| dec(&b)) {
                         Ok(Ok(v2)) => eqf(&v, &v2),
                         _ => false,
